@@ -1,0 +1,59 @@
+//go:build verif
+
+// Verification hooks (build tag verif only): a synchronous wash trigger and a read-only snapshot of the
+// accounting maps. No logic of their own.
+
+package txpool
+
+import (
+	"math/big"
+
+	"github.com/vechain/thor/v2/thor"
+	"github.com/vechain/thor/v2/tx"
+)
+
+// VerifObject is a copy of the accounting-relevant fields of one pooled object.
+type VerifObject struct {
+	Hash, ID         thor.Bytes32
+	Origin           thor.Address
+	Delegator        *thor.Address
+	Executable       bool
+	Local            bool
+	Payer            *thor.Address
+	Cost             *big.Int
+	PriorityGasPrice *big.Int
+	TimeAdded        int64
+}
+
+// VerifWash runs wash on the current best block and publishes the result as housekeeping does.
+func (p *TxPool) VerifWash(headBlockChanged bool) (tx.Transactions, int, error) {
+	executables, removed, err := p.wash(p.repo.BestBlockSummary(), headBlockChanged)
+	if err == nil {
+		p.executables.Store(executables)
+	}
+	return executables, removed, err
+}
+
+// VerifAccounting copies the quota and cost maps and the per-object flags under the map lock.
+func (p *TxPool) VerifAccounting() (quota map[thor.Address]int, cost map[thor.Address]*big.Int, objs []VerifObject) {
+	m := p.all
+	m.lock.RLock()
+	defer m.lock.RUnlock()
+	quota = make(map[thor.Address]int, len(m.quota))
+	for k, v := range m.quota {
+		quota[k] = v
+	}
+	cost = make(map[thor.Address]*big.Int, len(m.cost))
+	for k, v := range m.cost {
+		cost[k] = new(big.Int).Set(v)
+	}
+	for _, o := range m.mapByHash {
+		vo := VerifObject{
+			Hash: o.Hash(), ID: o.ID(), Origin: o.Origin(), Delegator: o.Delegator(),
+			Executable: o.executable, Local: o.localSubmitted(), Payer: o.Payer(), Cost: o.Cost(),
+			PriorityGasPrice: o.priorityGasPrice(), TimeAdded: o.timeAdded,
+		}
+		objs = append(objs, vo)
+	}
+	return
+}
